@@ -307,7 +307,10 @@ pub fn suite_cliclone(dir: &str, seed: u64, thorough: bool, st: &mut Stats) {
         let got = s.read("out.bin").unwrap_or_default();
         let ok = if kind == "blockdev" { got.len() >= c.src.len() && got[..c.src.len()] == c.src[..] } else { got == c.src };
         if code2 != 0 || !ok {
-            st.violation(if kind == "new" { "C02" } else { "C03" }, &format!("CLI clone ({}) does not reproduce the source (exit {}): {}", kind, code2, log2.lines().last().unwrap_or("")), &replay);
+            let what = format!("CLI clone ({}, {} seeds) does not reproduce the source (exit {}): {}", kind, nseeds + stdin_seed.is_some() as usize, code2, log2.lines().last().unwrap_or(""));
+            // with seeds it is (also) a C02 matter, with an old output used in place (also) a C03 matter
+            if kind == "new" || nseeds + stdin_seed.is_some() as usize > 0 { st.violation("C02", &what, &replay); }
+            if kind != "new" { st.violation("C03", &what, &replay); }
             return;
         }
         // C06/C07: chunk data requests = maximal runs of the descriptors whose chunk is in no seed / prior output
@@ -732,6 +735,18 @@ pub fn suite_cliwrites(dir: &str, seed: u64, thorough: bool, st: &mut Stats) {
             for b in &mut written[*o as usize..(*o + *l) as usize] { *b = true; }
         }
         if truncs != vec![total] { st.violation("C13", &format!("output resized with {:?}, expected once to {}", truncs, total), &replay); }
+        // a source chunk that the old output already holds at that very offset (found there by the scan) is not written
+        if inplace {
+            if let (Ok((sc, _)), Ok((pc, _))) = (crate::chunking::run_chunker(&c.cfg, &c.src, vec![]), crate::chunking::run_chunker(&c.cfg, &prior, vec![])) {
+                let srcset: std::collections::HashSet<(u64, Vec<u8>)> = sc.into_iter().collect();
+                for (o, d) in pc {
+                    if srcset.contains(&(o, d.clone())) && writes.iter().any(|(wo, wl)| *wo < o + d.len() as u64 && o < wo + wl) {
+                        st.violation("C13", &format!("the chunk at {}..{} was already in place in the old output but was written again", o, o + d.len() as u64), &replay);
+                        break;
+                    }
+                }
+            }
+        }
         // model: the same bytes through Model/CloneBytes.v
         if let Some(al) = crate::tamper::aclone_line(&archive) {
             let mut tab: Vec<String> = vec![];
